@@ -93,9 +93,29 @@ def compare(obs, exps):
     return bad
 
 
+def slow_listener(which):
+    """subscribes a listener that takes (virtual) time - 50 ms - for the
+    simulator's START / STARTING / STOP notification: the commands of the
+    driver go on meanwhile"""
+    def attach(sim):
+        from pydsol.core.pubsub import EventListener
+        from pydsol.core.interfaces import SimulatorInterface as S
+
+        class Slow(EventListener):
+            def notify(self, e):
+                coopsched.coop_sleep(0.05)
+        keep = Slow()
+        attach.keep = keep
+        sim.add_listener(getattr(S, which + "_EVENT"), keep)
+    return attach
+
+
 def judge(case):
     prog, clock, faults, sname, driver, raw, end = case[:7]
     switch = case[7] if len(case) > 7 else {}
+    slow = None
+    if isinstance(switch, str):
+        slow, switch = switch, {}
     pieces, exps = plan(prog, faults, sname, driver, end, switch)
     strat = strategies()[sname]
     # every other case selects the strategy together with an explicit log
@@ -118,6 +138,8 @@ def judge(case):
         try:
             r = progmc.run_pieces(prog, clock, pieces, faults=faults,
                                   strategy=strat, raw=raw, end=end,
+                                  listener=slow_listener(slow) if slow
+                                  else None,
                                   switch={t: strategies()[s_]
                                           for t, s_ in switch.items()})
         except common.HarnessError:
@@ -131,8 +153,10 @@ def judge(case):
 
 def case_json(case):
     prog, clock, faults, sname, driver, raw, end = case[:7]
-    return {"switch": {str(k): v for k, v in (case[7] if len(case) > 7
-                                              else {}).items()},
+    sw = case[7] if len(case) > 7 else {}
+    if isinstance(sw, str):
+        sw = {"slow": sw}
+    return {"switch": {str(k): v for k, v in sw.items()},
             "program": progmc.prog_to_json(prog), "clock": clock,
             "faults": {str(k): v for k, v in faults.items()},
             "strategy": sname, "driver": driver, "raw": sorted(raw),
@@ -143,6 +167,7 @@ def case_from_json(j):
     return (progmc.prog_from_json(j["program"]), j["clock"],
             {int(k): v for k, v in j["faults"].items()}, j["strategy"],
             j["driver"], set(j["raw"]), j["end"],
+            j["switch"]["slow"] if "slow" in j.get("switch", {}) else
             {int(k): v for k, v in j.get("switch", {}).items()})
 
 
@@ -196,6 +221,18 @@ def worker(task):
                                         n += 1
                                         bads.append((judge(c2), c2,
                                                      ":switched"))
+                                if len(faults) == 1 and not rawmode and \
+                                        clock == clocks[0] and \
+                                        (k <= 2 or len(clocks) > 1):
+                                    # (quick tier: programs of <= 2 events)
+                                    # a subscriber that is slow to take a
+                                    # notification of the simulator
+                                    for which in ("START", "STARTING",
+                                                  "STOP"):
+                                        c2 = case + (which,)
+                                        n += 1
+                                        bads.append((judge(c2), c2,
+                                                     ":slow-" + which))
                                 for bad, case, tagx in bads:
                                   for b in bad[:1]:
                                     sig = "C05:%s:%s:%s%s%s" % (
@@ -292,7 +329,10 @@ def run(ctx):
         "replication: bursts, chains, fans and ladders of k<=40 (thorough 65) "
         "events of which all / every second / every third fail, x strategy x "
         "{start, step}. Plus handlers that raise a BaseException that is not "
-        "an Exception. After every command: outcome, "
+        "an Exception. Plus, for single faults, a subscriber that takes 50 ms "
+        "of virtual time for the START / STARTING / STOP notification while "
+        "the driver's command goes on (quick: programs of <=2 events). "
+        "After every command: outcome, "
         "executed trace, clock, (run_state, replication_state) vs reference. "
         "Cases are distinct by construction; non-trivial = >=2 events.")
     ctx.assumptions += [
